@@ -26,13 +26,13 @@ FUNCTIONS_ENCODED = [
     "pyanalyze.value.CallableValue.can_assign -> pyanalyze.signature.Signature.can_assign (source of upper bounds)", "pyanalyze.value.GenericValue.can_assign (list[T], dict[T, U])", "two type variables: dict[T, U], Callable[[T], U] (h15_two)",
 ]
 BOUNDS = {
-    "quick": {"signatures": "1-3 parameters from {T, list[T], Callable[[T], None], Callable[[], T]} (+ dict[T, U], Callable[[T], U] with two variables), T plain / bound to an atom / constrained to two atoms, return T; all orders for <= 2 parameters, reversal + both rotations for 3",
+    "quick": {"solver_level": "multisets of 2-3 lower / upper bounds (atoms and one union) on one type variable, every order, every preorder", "signatures": "1-3 parameters from {T, list[T], Callable[[T], None], Callable[[], T]} (+ dict[T, U], Callable[[T], U] with two variables), T plain / bound to an atom / constrained to two atoms, return T; all orders for <= 2 parameters, reversal + both rotations for 3",
               "arguments": "atoms (distinct per parameter / all the same) or one Any; a 60th of the 3-parameter signatures plus the pinned Any + callback family", "relation": "every preorder on 3 atoms"},
     "thorough": {"signatures": "same, all argument assignments", "arguments": "same", "relation": "same"},
 }
 OUTSIDE = ["bounds produced by protocols / generic user classes (need the visitor and attribute lookup)", "ParamSpec solving"]
 STUBS = ["stub atoms with a symbolic preorder", "_CanAssignBasedContext with the real Checker collects the errors"]
-ASSUMPTIONS = ["a kernel-only (typevar.solve in isolation) obligation is NOT claimed: the caller re-checks arguments against substituted parameter types (DESIGN.md section 5 C15)"]
+ASSUMPTIONS = ["at the solver entry point (h15_bounds) only order independence of the verdict and 'a solution accepts every lower bound' are claimed; 'a solution is accepted by every upper bound' is claimed at the call level only: the caller re-checks arguments against substituted parameter types (DESIGN.md section 5 C15)"]
 
 
 def prepare(template, data):
@@ -40,7 +40,7 @@ def prepare(template, data):
     saved = G.case
     G.case = data
     try:
-        fn = h15 if template == "h15" else h15_two
+        fn = {"h15": h15, "h15_two": h15_two, "h15_bounds": h15_bounds}[template]
         fn(False, False, False, False, False, False)
         fn(True, True, True, True, True, True)
     finally:
@@ -169,12 +169,81 @@ KINDS = [("T",), ("boxT",), ("cbT",), ("retT",)]
 TVS = [("plain",), ("bound", 0), ("bound", 2), ("constr", 0, 1), ("constr", 1, 2)]
 
 
+# ----------------------------------------------------------------------------------------
+# H15c: the solver entry point itself (observe_at: typevar.resolve_bounds_map on public Bound objects): a multiset
+# of lower / upper bounds on one type variable, resolved in every order inside one path.  Obligations: the verdict
+# (error or solution) is the same in every order; a solution accepts every lower bound.  (That a solution is
+# accepted by every *upper* bound is asserted at the call level only - h15 - because the caller's second pass is
+# part of that guarantee; see ASSUMPTIONS.)
+# ----------------------------------------------------------------------------------------
+
+
+def _bval(spec, atoms):
+    if isinstance(spec, (list, tuple)):
+        return MultiValuedValue([atoms[spec[1]], atoms[spec[2]]])
+    return atoms[spec]
+
+
+def h15_bounds(b0: bool, b1: bool, b2: bool, b3: bool, b4: bool, b5: bool) -> bool:
+    """
+    post: _
+    """
+    if excluded(b0=b0, b1=b1, b2=b2, b3=b3, b4=b4, b5=b5):
+        return skip()
+    from pyanalyze.typevar import resolve_bounds_map
+    from pyanalyze.value import LowerBound, UpperBound
+
+    rel = Rel(3, (b0, b1, b2, b3, b4, b5))
+    atoms = [Atom(i, rel) for i in range(3)]
+    ctx = get_checker()
+    bounds = []
+    for kind, spec in G.case["bounds"]:
+        v = _bval(spec, atoms)
+        bounds.append(LowerBound(CC.T, v) if kind == "L" else UpperBound(CC.T, v))
+    verdict = None
+    for perm in itertools.permutations(range(len(bounds))):
+        tv_map, errors = resolve_bounds_map({CC.T: [bounds[i] for i in perm]}, ctx)
+        acc = not errors
+        if verdict is None:
+            verdict = acc
+        elif acc != verdict:
+            return fin(False)
+        if acc:
+            S = tv_map[CC.T]
+            if isinstance(S, AnyValue):
+                continue
+            for b in bounds:
+                if isinstance(b, LowerBound) and not ref_accepts(rel, S, b.value):
+                    return fin(False)
+    return fin(True)
+
+
+def _bounds_cases(tier: str, seed: int) -> List[Case]:
+    import zlib
+
+    quick = tier == "quick"
+    vocab = [("L", 0), ("L", 1), ("L", 2), ("L", ["u", 0, 1]), ("U", 0), ("U", 1), ("U", 2), ("U", ["u", 0, 1])]
+    out = []
+    for n in (2, 3) if quick else (2, 3, 4):
+        for ms in itertools.combinations_with_replacement(range(len(vocab)), n):
+            if len(set(ms)) == 1:
+                continue
+            bs = [vocab[i] for i in ms]
+            lab = "bd:" + ",".join(k + (str(s) if not isinstance(s, list) else "u%d%d" % (s[1], s[2])) for k, s in bs)
+            if n == 3 and quick and (zlib.crc32(lab.encode()) + seed) % 2 != 0:
+                continue
+            if n == 4 and (zlib.crc32(lab.encode()) + seed) % 3 != 0:
+                continue
+            out.append(Case("h15_bounds", lab, {"bounds": [[k, s] for k, s in bs]}, timeout=90 if quick else 300, twin=True))
+    return out
+
+
 def _lab(params, tv, args):
     return ",".join(p[0] for p in params) + "|" + ":".join(map(str, tv)) + "|" + ",".join(str(a) for a in args)
 
 
 def cases(tier: str, seed: int) -> List[Case]:
-    out: List[Case] = []
+    out: List[Case] = _bounds_cases(tier, seed)
     quick = tier == "quick"
     idx = 0
     for n in (1, 2, 3):
